@@ -13,6 +13,7 @@ from onl.packet import Packet
 from onl.scheduler import SP, RR, WRR, DRR
 from onl.scheduler.monitor import Monitor
 from vlib.util import bits, quiet
+from harness import construct
 
 INF = float('inf')
 
@@ -60,17 +61,21 @@ def class_of_flow(c, f):
 
 
 def build(env, c):
+    """the scheduler of case `c`.  `c['ctor'] == 'positional'`: every published constructor parameter is handed over positionally, in the
+    published order, `debug=True` included (harness/construct.py; DESIGN section 3: such a call is an ordinary input, all clauses hold
+    for it).  Callers swallow stdout (`quiet()`); construction style is not an input of the model: the replay is the same."""
     kind, rate = c['kind'], c['rate']
     m = dict(map(tuple, c['map'])) if c.get('map') else None
-    f2c = (lambda fid: m[fid]) if m else None
+    style = 'positional' if c.get('ctor') == 'positional' else 'legacy'
+    f2c = {'flow2class': (lambda fid: m[fid])} if m else {}
     if kind == 'sp':
-        return SP(env, rate, dict(map(tuple, c['table'])), f2c) if f2c else SP(env, rate, dict(map(tuple, c['table'])))
+        return construct.build(SP, dict(env=env, rate=rate, priorities=dict(map(tuple, c['table'])), **f2c), style)
     if kind == 'rr':
-        return RR(env, rate, list(c['flows']))
+        return construct.build(RR, dict(env=env, rate=rate, flows=list(c['flows'])), style)
     if kind == 'wrr':
-        return WRR(env, rate, dict(map(tuple, c['table'])))
+        return construct.build(WRR, dict(env=env, rate=rate, weights=dict(map(tuple, c['table']))), style)
     if kind == 'drr':
-        return DRR(env, rate, dict(map(tuple, c['table'])), f2c) if f2c else DRR(env, rate, dict(map(tuple, c['table'])))
+        return construct.build(DRR, dict(env=env, rate=rate, weights=dict(map(tuple, c['table'])), **f2c), style)
     raise ValueError(kind)
 
 
@@ -315,6 +320,13 @@ def build_instance(env, c, counter):
 
 
 def run_impl(c, budget=20.0):
+    if any(uc.get('ctor') == 'positional' for uc in [c] + list(c.get('peers') or [])):
+        with construct.swallowed():         # debug=True devices print on every packet: swallowed for the duration of the case
+            return _run_impl(c, budget)
+    return _run_impl(c, budget)
+
+
+def _run_impl(c, budget=20.0):
     """run case `c` on the real scheduler - and, next to it in the same Environment, the peer schedulers of its group
     (`c['peers']`: built at the start, or, with `at`, at that simulated instant by a process of the harness); returns the
     MQRun of the scheduler under test (the peers' runs in `.peers`, in the order of `c['peers']`)"""
@@ -403,6 +415,9 @@ def gen_poll(rng, c):
             'periods': [rng.choice([0, 0.25, 0.5, 1, 1, 2, 3]) * unit for _ in range(rng.randint(0, 12))]}
 
 
+POSITIONAL_SHARE = 0.15
+
+
 def gen_group(rng, cid, kind, backlog=False, share=0.3, poll=0.0, real_prio=0.0):
     c = _gen_group(rng, cid, kind, backlog, share, real_prio)
     # `poll`: share of the cases in which the harness, like operator code, reads size() / byte_size() / all_flows() of every configured
@@ -414,6 +429,11 @@ def gen_group(rng, cid, kind, backlog=False, share=0.3, poll=0.0, real_prio=0.0)
         for pc in c.get('peers') or []:
             if rng.random() < 0.5:
                 pc['poll'] = gen_poll(rng, pc)
+    # construction style (harness/construct.py): in a share of the cases the scheduler under test - and, independently, each peer - is built
+    # with ALL published constructor parameters positional, debug=True among them
+    for uc in [c] + list(c.get('peers') or []):
+        if rng.random() < POSITIONAL_SHARE:
+            uc['ctor'] = 'positional'
     return c
 
 
@@ -611,6 +631,9 @@ def evaluate(cases, oracles, nontrivial, rule, again_n=40):
             hist['with flow2class map'] += 1
         if c.get('pre'):
             hist['put before the loop started'] += 1
+        if c.get('ctor') == 'positional':
+            hist['built fully positionally in the published parameter order, debug=True (stdout swallowed)'] += 1
+        hist['peer schedulers: built fully positionally'] += sum(1 for pc in c.get('peers') or [] if pc.get('ctor') == 'positional')
         if c.get('poll'):
             hist['polled through size()/byte_size()/all_flows() (oracle-only)'] += 1
             hist['polls'] += getattr(r, 'polls', 0)
